@@ -150,6 +150,12 @@ def r2(ctx: Ctx) -> None:
 
 @rule("C13.R3", "the run loop calls each trigger once per occurrence, before-hooks before the occurrence takes effect and after-hooks after it; nobody else calls triggers", "T5 ordering + T4 + T2", floor=12)
 def r3(ctx: Ctx) -> None:
+    check_call_sites(ctx, {"accept", "execution", "session", "step", "callers"})
+
+
+def check_call_sites(ctx: Ctx, aspects) -> None:
+    """aspects: accept (before/after order and cancel), before_order (only that hook),
+    execution (after-execution hook), session, step, callers"""
     f = ctx.func(HO)
     for b in handling_blocks(ctx):
         evs = b.path.events
@@ -160,9 +166,16 @@ def r3(ctx: Ctx) -> None:
         trig = [e for e in evs if e.kind == "call" and e.name.startswith("_trigger_event_") and e.name.endswith(("_order", "_cancel"))]
         bef = [e for e in trig if e.name == bname and kw(e, barg, 0) == b.elem]
         aft = [e for e in trig if e.name == aname and kw(e, aarg, 0) == b.accept.term]
-        ok = len(trig) == 2 and len(bef) == 1 and len(aft) == 1 and evs.index(bef[0]) < i < evs.index(aft[0])
-        ctx.check(ok, f, b.accept.node, f"{b.phase} {b.kind}: before-hook, acceptance, after-hook", f"{bname}({barg}=<it>) < accept < {aname}({aarg}=<record>)",
-                  " < ".join((e.name if e.kind == "call" else "?") for e in evs if e in trig or e is b.accept))
+        if "accept" in aspects:
+            ok = len(trig) == 2 and len(bef) == 1 and len(aft) == 1 and evs.index(bef[0]) < i < evs.index(aft[0])
+            ctx.check(ok, f, b.accept.node, f"{b.phase} {b.kind}: before-hook, acceptance, after-hook", f"{bname}({barg}=<it>) < accept < {aname}({aarg}=<record>)",
+                      " < ".join((e.name if e.kind == "call" else "?") for e in evs if e in trig or e is b.accept))
+        elif "before_order" in aspects and b.kind == "order":
+            allb = [e for e in trig if e.name == bname]
+            ok = len(allb) == 1 and len(bef) == 1 and evs.index(bef[0]) < i
+            ctx.check(ok, f, b.accept.node, f"{b.phase} order: the before-order hook runs once, before acceptance", f"{bname}(order=<it>) < _add_order", f"{len(allb)} before-order trigger(s)")
+        if "execution" not in aspects:
+            continue
         # fills
         ex = [e for e in evs if e.kind == "call" and calls_target(e, EXEC)]
         for x in ex:
@@ -179,7 +192,7 @@ def r3(ctx: Ctx) -> None:
             ctx.check(not stray, f, b.accept.node, f"{b.phase} {b.kind}: no after-execution hook without a matching round", "0", str(len(stray)))
     # session and step hooks
     g = ctx.func(RUN)
-    for p in normal_paths(ctx.paths(RUN)):
+    for p in (normal_paths(ctx.paths(RUN)) if "session" in aspects else []):
         for l in [l for l in loops(p) if key(strip_ver(l.iter)) == "self.simulator.sessions"]:
             el = ("sym", f"{l.target[0]}∈{l.loopid}")
             for bp in l.paths:
@@ -190,7 +203,7 @@ def r3(ctx: Ctx) -> None:
                 ok = ok and len(cur) == 1 and cur[0].value == el and bp.events.index(cur[0]) < bp.events.index(ts[0])
                 ctx.check(ok, g, l.node, "per session: current session set, before-session hook, steps, after-session hook", "current_session = s; before(s); steps; after(s)", " ; ".join(e.name for e in ts))
     h = ctx.func(IT)
-    for p in normal_paths(ctx.paths(IT)):
+    for p in (normal_paths(ctx.paths(IT)) if "step" in aspects else []):
         for sl in [l for l in loops(p) if l.iter is not None and l.iter[0] == "call" and key(l.iter[1]) == "range"]:
             for bp in sl.paths:
                 if bp.exit[0] == "raise":
@@ -216,7 +229,7 @@ def r3(ctx: Ctx) -> None:
                 if ("order-phase", True) in seq:
                     ok = ok and [n for n, _ in seq] == ["_trigger_event_before_step_for_market", "order-phase", "_trigger_event_after_step_for_market", "clock"]
                 ctx.check(ok, h, sl.node, "per step: before-step hook for every market, order phase, after-step hook for every market, then the clock", "before(m)* ; orders ; after(m)* ; clock", str([n for n, _ in seq]))
-    for name in ctx.program.cls("Simulator").methods:
+    for name in (ctx.program.cls("Simulator").methods if "callers" in aspects else []):
         if name.startswith("_trigger_event_"):
             for s in ctx.cg.sites_calling(f"Simulator.{name}"):
                 ctx.check(s.caller.cls is not None and s.caller.cls.name == "SequentialRunner", s.caller, s.node, f"caller of {name}", "SequentialRunner", s.caller.qualname)
